@@ -49,7 +49,23 @@ func (g *gen) validateStmt() {
 	}
 	g.feat("validator")
 	bit := g.bit()
-	switch g.intn(9, "valk") {
+	k := g.intn(9, "valk")
+	// Recorded finding (validator-join-single-path): the condition of a flow is taken from ONE path between source and
+	// sink, the one through the false edge of each branch. When the false edge is the validated one (stored negation,
+	// err != nil), a sink behind the join is judged validated although the other branch reaches it too. With the
+	// finding recorded, the unvalidated branch of these shapes leaves the function, so that the join is only reached
+	// on the validated path; inside closures the shapes are not generated.
+	leave := func() {}
+	if (k == 6 || k == 7) && g.off("validator-join-single-path") {
+		if g.closureDepth > 0 || g.inDefer {
+			k = 1
+		} else if g.curFn >= 0 {
+			leave = func() { g.returnStmt() }
+		} else {
+			leave = func() { g.emit("return") }
+		}
+	}
+	switch k {
 	case 6:
 		// the negated verdict is stored before it is branched on
 		bad := g.fresh()
@@ -57,6 +73,7 @@ func (g *gen) validateStmt() {
 		g.emit("if %s {", bad)
 		g.indent++
 		g.block(1 + g.intn(2, "valn"))
+		leave()
 		g.indent--
 		if g.chance(50, "valelse") {
 			g.emit("} else {")
@@ -70,6 +87,7 @@ func (g *gen) validateStmt() {
 		g.emit("if err := validateE(%d, %s); err != nil {", bit, v.name)
 		g.indent++
 		g.block(1 + g.intn(2, "valn"))
+		leave()
 		g.indent--
 		g.emit("} else {")
 		g.indent++
